@@ -943,26 +943,69 @@ Definition find_cp_slow (A : nfa) (ranges : list (N * N)) : option (list N) :=
 
 (* without Look states: the 64 code points of a page r/64 share all bytes but the last,
    the automaton is run once on the common prefix (Utf8.encode_page) *)
+Definition find_pages {T} (g1 : N -> option T) (gp : N -> N -> option T) : option T :=
+  match find_below 128 g1 with
+  | Some w => Some w
+  | None =>
+    find_below 0x4400 (fun pg =>
+      if (pg <? 2)%N then None else
+      if is_scalar (pg * 64)%N then find_below 64 (gp pg) else None)
+  end.
+
+Lemma find_pages_none {T} (g1 : N -> option T) gp : find_pages g1 gp = None ->
+  (forall r, (r < 128)%N -> g1 r = None) /\
+  (forall r, (128 <= r)%N -> (r < 0x110000)%N -> is_scalar r = true -> gp (r / 64)%N (r mod 64)%N = None).
+Proof.
+  unfold find_pages. intros E.
+  destruct (find_below 128 g1) eqn:E1; [discriminate|]. split.
+  - intros r Hr. apply (find_below_none _ _ E1 r Hr).
+  - intros r H128 Hr Hs.
+    assert (Hpg : (r / 64 < 17408)%N) by lia.
+    pose proof (find_below_none _ _ E (r / 64)%N Hpg) as Hb. cbv beta in Hb.
+    replace (r / 64 <? 2)%N with false in Hb by lia.
+    rewrite (scalar_page r H128 Hs) in Hb.
+    apply (find_below_none _ _ Hb (r mod 64)%N). lia.
+Qed.
+
+Section CpFast.
+  Variable cl : nat -> list fstate.
+  Variable F0 : list fstate.
+  Variable ranges : list (N * N).
+
+  Definition cp_g1 (r : N) : option (list N) :=
+    if Bool.eqb (facc (fnext cl F0 r)) (in_ranges r ranges) then None else Some [r].
+
+  Definition cp_gp (pg : N) : N -> option (list N) :=
+    let base := (pg * 64)%N in
+    let pre := removelast (encode base) in
+    let F := fold_left (fnext cl) pre F0 in
+    fun lo => if Bool.eqb (facc (fnext cl F (128 + lo)%N)) (in_ranges (base + lo)%N ranges) then None
+              else Some (pre ++ [(128 + lo)%N]).
+
+  Definition cp_fast : option (list N) := find_pages cp_g1 cp_gp.
+
+  Lemma cp_fast_sound : cp_fast = None ->
+    forall r, (r < 0x110000)%N -> is_scalar r = true ->
+      facc (fold_left (fnext cl) (encode r) F0) = in_ranges r ranges.
+  Proof.
+    intros E r Hr Hs. destruct (find_pages_none _ _ E) as [H1 H2].
+    destruct (r <? 128)%N eqn:Er.
+    - assert (Hlt : (r < 128)%N) by lia. specialize (H1 r Hlt). unfold cp_g1 in H1.
+      destruct (Bool.eqb (facc (fnext cl F0 r)) (in_ranges r ranges)) eqn:Eq; [|discriminate].
+      apply eqb_prop in Eq. unfold encode. rewrite Er. exact Eq.
+    - assert (H128 : (128 <= r)%N) by lia. specialize (H2 r H128 Hr Hs). unfold cp_gp in H2.
+      replace (r / 64 * 64 + r mod 64)%N with r in H2 by lia.
+      match type of H2 with (if ?c then _ else _) = _ => destruct c eqn:Eq; [|discriminate] end.
+      apply eqb_prop in Eq. rewrite (encode_page r H128 Hs), fold_left_app. exact Eq.
+  Qed.
+End CpFast.
+
 Definition find_cp_fast (A : nfa) (ranges : list (N * N)) : option (list N) :=
   let lk := get (mk_map (states A)) in
   let n := nstates A in
   let full := mk_full n in
   let cl := cl_of (cl_tab lk full n) in
-  let F0 := cl (start_anch A) in
-  match find_below 128 (fun r => if Bool.eqb (facc (fnext cl F0 r)) (in_ranges r ranges) then None else Some [r]) with
-  | Some w => Some w
-  | None =>
-    find_below 0x4400 (fun pg =>
-      if (pg <? 2)%N then None else
-      let base := (pg * 64)%N in
-      if is_scalar base then
-        let pre := removelast (encode base) in
-        let F := fold_left (fnext cl) pre F0 in
-        find_below 64 (fun lo =>
-          if Bool.eqb (facc (fnext cl F (128 + lo)%N)) (in_ranges (base + lo)%N ranges) then None
-          else Some (pre ++ [(128 + lo)%N]))
-      else None)
-  end.
+  cp_fast cl (cl (start_anch A)) ranges.
 
 Definition find_cp (A : nfa) (ranges : list (N * N)) : option (list N) :=
   if no_look A then find_cp_fast A ranges else find_cp_slow A ranges.
@@ -982,23 +1025,9 @@ Qed.
 Lemma find_cp_fast_sound A ranges : no_look A = true -> find_cp_fast A ranges = None ->
   forall r, (r < 0x110000)%N -> is_scalar r = true -> accepts A (encode r) = in_ranges r ranges.
 Proof.
-  intros Hnl E r Hr Hs. unfold find_cp_fast in E. cbv zeta in E.
-  set (lk := get (mk_map (states A))) in *. set (n := nstates A) in *. set (full := mk_full n) in *.
-  set (cl := cl_of (cl_tab lk full n)) in *. set (F0 := cl (start_anch A)) in *.
-  match type of E with match ?x with _ => _ end = _ => destruct x eqn:E1; [discriminate|] end.
-  rewrite <- (acc_fast_ok A (encode r) Hnl). cbv zeta. fold lk n full cl F0.
-  destruct (r <? 128)%N eqn:Er.
-  - pose proof (find_below_none _ _ E1 r ltac:(lia)) as Hb. cbv beta in Hb.
-    destruct (Bool.eqb (facc (fnext cl F0 r)) (in_ranges r ranges)) eqn:Eq; [|discriminate].
-    apply eqb_prop in Eq. unfold encode. rewrite Er. exact Eq.
-  - assert (H128 : (128 <= r)%N) by lia.
-    pose proof (find_below_none _ _ E (r / 64)%N ltac:(lia)) as Hb. cbv beta in Hb.
-    replace (r / 64 <? 2)%N with false in Hb by lia.
-    rewrite (scalar_page r H128 Hs) in Hb.
-    pose proof (find_below_none _ _ Hb (r mod 64)%N ltac:(lia)) as Hc. cbv beta in Hc.
-    replace (r / 64 * 64 + r mod 64)%N with r in Hc by lia.
-    match type of Hc with (if ?c then _ else _) = _ => destruct c eqn:Eq; [|discriminate] end.
-    apply eqb_prop in Eq. rewrite (encode_page r H128 Hs), fold_left_app. exact Eq.
+  intros Hnl E r Hr Hs. unfold find_cp_fast in E.
+  rewrite <- (acc_fast_ok A (encode r) Hnl).
+  exact (cp_fast_sound _ _ _ E r Hr Hs).
 Qed.
 
 Theorem sweep_codepoints_sound A ranges : sweep_codepoints A ranges = true ->
